@@ -59,6 +59,21 @@ func genMatchCase(r *Rng) *matchCase {
 		bare.IdentifyingFeatures.OptionalCalls = nil
 		mc.Sigs = append(mc.Sigs, rich, bare)
 	}
+	if r.Chance(30) {
+		// the same sample indexed twice with entropies about 1e-9 apart: two alerts whose
+		// confidences differ by next to nothing are still two different confidences
+		flip := r.Bool() // which of the two IDs gets the exact entropy
+		for k, d := range []float64{pick(r, []float64{3e-10, 7e-10, 2e-9}), 0} {
+			near := detection.IndexFunction(t, "N_near", "d", "HIGH", "malware")
+			near.ID = fmt.Sprintf("S8%d", k)
+			near.EntropyTolerance = pick(r, []float64{0.5, 0.125, 2})
+			near.EntropyScore = t.EntropyScore + d
+			if flip {
+				near.ID = fmt.Sprintf("S8%d", 1-k)
+			}
+			mc.Sigs = append(mc.Sigs, near)
+		}
+	}
 	mc.Thr = pick(r, thrPool)
 	mc.Thr2 = pick(r, thrPool)
 	mc.DefTol = pick(r, []float64{0, 0.125, 0.5, 0.5, 2})
